@@ -4,8 +4,78 @@ import storefam
 import agentfam as af
 
 
+def rng_failure_leg(ctx):
+    """The kernel's random source fails (getrandom -> ENOSYS, /dev/urandom cannot be opened; both injected with strace into the
+    real library run by cmd/storedrv): an add/update must then fail without a record - never write a constant or repeated salt."""
+    import base64, fsfam
+    drv = ctx.build("./cmd/storedrv")
+    root = os.path.join(ctx.scratch, "rngfail")
+    n = 0
+    for default in (1, 2):
+        salts = []
+        for op, user in (("add", "newbie"), ("add", "second"), ("update", "root")):
+            d = os.path.join(root, "d%d-%s-%s" % (default, op, user))
+            base = os.path.join(d, "base")
+            os.makedirs(base, exist_ok=True)
+            open(os.path.join(base, "root.admin"), "w").write(fsfam.scrypt_record(b"pw"))
+            cfg = os.path.join(d, "store.yaml")
+            open(cfg, "w").write((fsfam.CFG % (base, base64.b64encode(fsfam.HMAC1).decode())).replace("default: 1", "default: %d" % default))
+            pwf = os.path.join(d, "pw"); open(pwf, "wb").write(b"a new password 123")
+            argv = [drv, "-cfg", cfg, "-op", op, "-user", user, "-pwfile", pwf]
+            tr = os.path.join(d, "tr1.txt")
+            subprocess.run(["strace", "-f", "-o", tr, "-e", "trace=getrandom,openat", "-e", "inject=getrandom:error=ENOSYS"] + argv,
+                           stdout=subprocess.PIPE, stderr=subprocess.PIPE, timeout=60)
+            # which openat of which thread opens /dev/urandom?
+            per_pid, hit = {}, None
+            for line in open(tr):
+                m = re.match(r"(\d+)\s+openat\((.*)", line)
+                if not m:
+                    continue
+                per_pid[m.group(1)] = per_pid.get(m.group(1), 0) + 1
+                if "/dev/urandom" in m.group(2) and hit is None:
+                    hit = per_pid[m.group(1)]
+            for f in os.listdir(base):          # undo whatever the probing run wrote
+                if f != "root.admin":
+                    p = os.path.join(base, f)
+                    (os.remove if os.path.isfile(p) else lambda q: None)(p)
+            open(os.path.join(base, "root.admin"), "w").write(fsfam.scrypt_record(b"pw"))
+            if hit is None:
+                ctx.notes.append("rng failure leg: no fallback open of /dev/urandom seen for %s (default %d)" % (op, default))
+                continue
+            tr2 = os.path.join(d, "tr2.txt")
+            r = subprocess.run(["strace", "-f", "-o", tr2, "-e", "trace=getrandom,openat", "-e", "inject=getrandom:error=ENOSYS",
+                                "-e", "inject=openat:error=EACCES:when=%d" % hit] + argv, stdout=subprocess.PIPE, stderr=subprocess.PIPE, timeout=60)
+            inj = [l for l in open(tr2) if "INJECTED" in l and "openat" in l]
+            if not inj or not all("/dev/urandom" in l for l in inj):
+                ctx.notes.append("rng failure leg: injection did not land on /dev/urandom only for %s (default %d)" % (op, default))
+                continue
+            n += 1
+            try:
+                res = json.loads(r.stdout.decode().strip().splitlines()[-1])
+            except Exception:
+                ctx.violation("C14", "rng-failure:crash:%s" % op, "driver died: %s" % r.stderr.decode()[-300:])
+                continue
+            target = os.path.join(base, user + (".admin" if user == "root" else ".user"))
+            line = open(target).read().split("\n")[0] if os.path.exists(target) else ""
+            f = line.split(":")
+            wrote = len(f) == 5 and (op == "add" or line + "\n" != fsfam.scrypt_record(b"pw"))
+            if wrote:
+                salt = base64.urlsafe_b64decode(f[3] + "=" * (-len(f[3]) % 4))
+                salts.append(salt)
+                if set(salt) <= {0} or len(set(salt)) < 4:
+                    ctx.violation("C14", "written-record:salt-not-random:%s" % ("argon2id" if default == 2 else "scrypt"),
+                                  "%s with a failing random source reported ok=%s and wrote salt %s" % (op, res.get("ok"), salt.hex()))
+        if len(salts) != len(set(salts)):
+            ctx.violation("C14", "written-record:salt-reused:%s" % ("argon2id" if default == 2 else "scrypt"),
+                          "the same salt was written twice while the random source failed: %s" % [x.hex() for x in salts])
+    ctx.coverage["rng_failure_runs"] = n
+    if n == 0:
+        ctx.inconclusive.append("rng failure leg: no run with a failing random source could be produced")
+
+
 def run(ctx):
     thorough = ctx.tier == "thorough"
+    rng_failure_leg(ctx)
     # every write edge of the Store model: shape, default set, time, salt size, salt != previous, digest (C14-tagged findings)
     storefam.run_family(ctx, only_ops=("add", "update", "init"), seeds=[ctx.seed])
     # the same rules along model histories (SimStore, 3 parameter sets, default switches) against one real directory each
